@@ -47,8 +47,21 @@ func runC11(c *Ctx) {
 
 	// ---- R1 lock regions
 	type region struct {
-		lock   *ssa.Call
-		unlock *ssa.Defer
+		lock    *ssa.Call
+		unlock  *ssa.Defer
+		unlocks map[ssa.Instruction]bool // direct unlocks (single-exit style), nil with a deferred unlock
+	}
+	// held: instruction in executes with the mutex held in a region function
+	held := func(r *region, in ssa.Instruction) bool {
+		if !instrDominates(r.lock, in) {
+			return false
+		}
+		for u := range r.unlocks {
+			if canReachWithout(u, in, nil) {
+				return false
+			}
+		}
+		return true
 	}
 	regions := map[*ssa.Function]*region{}
 	lockedFns := map[*ssa.Function]string{} // why the function's accesses are protected
@@ -81,12 +94,42 @@ func runC11(c *Ctx) {
 		}
 		ob := c.Obl("R1", p.FuncKey(fn)+"#single-critical-section", "the function takes the filter's mutex exactly once, defers the unlock right away and never unlocks in between: everything it does to the filter is one critical section (of several simultaneous submissions of one value exactly one can be told 'new')")
 		switch {
+		case len(locks) == 1 && len(dunlocks) == 0 && len(unlocks) >= 1 && !blockOnCycle(locks[0].Block()):
+			// explicit unlocks: still one critical section if every unlock follows the lock, every
+			// return after the lock has passed an unlock, and nothing touches the filter after one
+			// (the accesses are judged below with the same 'held' predicate)
+			us := map[ssa.Instruction]bool{}
+			bad := ""
+			for _, u := range unlocks {
+				us[u] = true
+				if !instrDominates(locks[0], u) {
+					bad = "Unlock at " + p.InstrPos(u) + " is not preceded by the Lock"
+				}
+				if blockOnCycle(u.Block()) {
+					bad = "Unlock at " + p.InstrPos(u) + " is in a loop"
+				}
+			}
+			for _, r := range returnsOf(fn) {
+				if instrDominates(locks[0], r) && canReachWithout(locks[0], r, us) {
+					bad = "the return at " + p.InstrPos(r) + " is reachable with the mutex still held"
+				}
+				if !instrDominates(locks[0], r) && canReachWithout(locks[0], r, nil) {
+					bad = "the return at " + p.InstrPos(r) + " may or may not hold the mutex"
+				}
+			}
+			if bad != "" {
+				ob.Violate("%s", bad)
+			} else {
+				regions[fn] = &region{lock: locks[0], unlocks: us}
+				lockedFns[fn] = "locks"
+				ob.HoldNT("Lock at %s; %d explicit Unlock(s), each on the way out", p.InstrPos(locks[0]), len(unlocks))
+			}
 		case len(locks) != 1 || len(dunlocks) != 1 || len(unlocks) != 0:
 			ob.Violate("%d Lock, %d deferred Unlock and %d direct Unlock calls; expected 1, 1, 0 (a lock released and re-taken between lookup and insert lets two callers both see 'new')", len(locks), len(dunlocks), len(unlocks))
 		case !instrDominates(locks[0], dunlocks[0]) || blockOnCycle(locks[0].Block()):
 			ob.Violate("the unlock is not deferred right after the lock")
 		default:
-			regions[fn] = &region{locks[0], dunlocks[0]}
+			regions[fn] = &region{lock: locks[0], unlock: dunlocks[0]}
 			lockedFns[fn] = "locks"
 			ob.HoldNT("Lock at %s; defer Unlock", p.InstrPos(locks[0]))
 		}
@@ -106,7 +149,7 @@ func runC11(c *Ctx) {
 			for _, cs := range sites {
 				r := regions[cs.Caller]
 				switch {
-				case r != nil && instrDominates(r.lock, cs.Instr):
+				case r != nil && held(r, cs.Instr):
 				case lockedFns[cs.Caller] == "helper":
 				case len(cs.Instr.Common().Args) > 0 && isFreshLocal(cs.Instr.Common().Args[0]):
 					// called on an object the caller has just allocated and not yet published (the constructor)
@@ -137,8 +180,8 @@ func runC11(c *Ctx) {
 				n++
 				switch {
 				case regions[fn] != nil:
-					if !instrDominates(regions[fn].lock, fa) {
-						bad = "access at " + p.InstrPos(fa) + " precedes the Lock"
+					if !held(regions[fn], fa) {
+						bad = "access at " + p.InstrPos(fa) + " is outside the critical section (before the Lock or after an Unlock)"
 					}
 				case lockedFns[fn] == "helper":
 				default:
@@ -281,8 +324,16 @@ func runC11(c *Ctx) {
 	if nw := p.Func("common/replayfilter:New"); nw != nil && bad == "" {
 		ok16 := false
 		for _, call := range p.CallsIn(nw, "$M/common/csrand.Bytes") {
-			if sl, ok := unspill(call.Common().Args[0]).(*ssa.Slice); ok && sl.Low == nil && sl.High == nil {
-				if n, ok := constLen(sl.X.Type()); ok && n == 16 {
+			arg := call.Common().Args[0]
+			if cc, isC := call.(*ssa.Call); isC {
+				okp, _ := p.NewBounds().Prove(nw, cc, func(s *scope, pr *proof) []Cons {
+					l, ok := s.lenLin(arg, pr)
+					if !ok {
+						return nil
+					}
+					return eq(l, linConst(16))
+				})
+				if okp {
 					ok16 = true
 				}
 			}
@@ -515,6 +566,35 @@ func c11Eviction(c *Ctx, p *Prog) {
 				}
 			}
 			if all && anyFront {
+				okWalk = true
+			}
+		}
+	}
+	if !okWalk {
+		// or: every iteration fetches the current front again, and the entry deleted is the one read from it
+		var derives func(v ssa.Value, d int) *ssa.Call
+		derives = func(v ssa.Value, d int) *ssa.Call {
+			if d > 8 {
+				return nil
+			}
+			switch x := unspill(v).(type) {
+			case *ssa.Call:
+				if p.CalleeID(x.Common()) == "(*container/list.List).Front" && isFieldLoad(x.Common().Args[0], tRF, "fifo") {
+					return x
+				}
+			case *ssa.UnOp:
+				return derives(x.X, d+1)
+			case *ssa.FieldAddr:
+				return derives(x.X, d+1)
+			case *ssa.TypeAssert:
+				return derives(x.X, d+1)
+			case *ssa.Extract:
+				return derives(x.Tuple, d+1)
+			}
+			return nil
+		}
+		if len(del.Common().Args) == 2 {
+			if fc := derives(del.Common().Args[1], 0); fc != nil && loop[fc.Block()] && instrDominates(fc, del) {
 				okWalk = true
 			}
 		}
